@@ -40,7 +40,7 @@ class Call:
         self.callee = c
         self.path = c.get("path")
         self.resolved = c.get("resolved") or c.get("path")
-        self.name = c.get("name")
+        self.name = c.get("name") or ""      # a call through a function pointer has no name
         self.krate = c.get("rkrate") or c.get("krate")
         self.self_adt = c.get("self_adt")
         self.self_ty = c.get("self_ty")
